@@ -55,7 +55,7 @@ type oracle struct {
 }
 
 var maxI64 = big.NewInt(math.MaxInt64)
-var two52 = new(big.Int).Lsh(big.NewInt(1), 52)
+var minI64 = big.NewInt(math.MinInt64)
 
 func filePattern(repo, file, def string) (string, error) {
 	b, err := os.ReadFile(filepath.Join(repo, "data", "schemas", "num", file))
@@ -114,10 +114,16 @@ func readDecimal(s string) (neg bool, unscaled *big.Int, decimals int) {
 }
 
 // fits: "whose value fits in 64 bits": at most 18 decimals and the digits
-// without the point at most 2^63-1
+// without the point, with the sign of the text, an int64 (-2^63 … 2^63-1)
 func fits(s string) bool {
-	_, u, d := readDecimal(s)
-	return u != nil && d <= 18 && u.Cmp(maxI64) <= 0
+	neg, u, d := readDecimal(s)
+	if u == nil || d > 18 {
+		return false
+	}
+	if neg {
+		u = new(big.Int).Neg(u)
+	}
+	return u.Cmp(minI64) >= 0 && u.Cmp(maxI64) <= 0
 }
 
 func ratOf(v int64, e uint32) *big.Rat {
@@ -218,6 +224,8 @@ var fixedTexts = []string{
 	"0.000000000000000000", "0.0000000000000000000", "1.000000000000000000", "9.223372036854775807", "9.223372036854775808",
 	"1.0000000000000000000", "0.9223372036854775807", "0.9223372036854775808", "0.09223372036854775808",
 	"922337203685477580.7", "922337203685477580.8", "92233720368547758.07", "92233720368547758.08",
+	"-922337203685477580.8", "-922337203685477580.9", "-92233720368547758.08", "-92233720368547758.09", "-9.223372036854775808", "-9.223372036854775809",
+	"-9223372036854775808.0", "-0.9223372036854775808",
 	"0.123456789012345678", "0.1234567890123456789", "123456789012345.67", "99999999999999.99", "45035996273704.96", "45035996273704.95",
 }
 
@@ -225,6 +233,7 @@ var fixedTexts = []string{
 func boundaryTexts() []string {
 	var out []string
 	base := []*big.Int{big.NewInt(0), big.NewInt(1), big.NewInt(math.MaxInt64), new(big.Int).Add(big.NewInt(math.MaxInt64), big.NewInt(1)),
+		new(big.Int).Add(big.NewInt(math.MaxInt64), big.NewInt(2)),
 		new(big.Int).Sub(big.NewInt(math.MaxInt64), big.NewInt(1)), new(big.Int).Lsh(big.NewInt(1), 52), new(big.Int).Lsh(big.NewInt(1), 53)}
 	for k := 1; k <= 20; k++ {
 		p := new(big.Int).Exp(big.NewInt(10), big.NewInt(int64(k)), nil)
@@ -530,9 +539,9 @@ func Run(c *core.Ctx) int {
 			}
 			cases = append(cases, tcase{Op: "min", V: w, E: e, Stream: "random"})
 		}
-		// percentages: mostly inside the exact domain |v|*10^4 < 2^52
+		// percentages: any int64 value (the conversions are exact), some of them small
 		pv := v
-		if r.Intn(8) != 0 {
+		if r.Intn(4) == 0 {
 			pv = v % (1 << 38)
 		}
 		cases = append(cases, tcase{Op: "pstr", V: pv, E: uint32(r.Intn(21)), Stream: "random"})
@@ -714,11 +723,9 @@ func decodeToken(tok string) (kind, content string, hasEscape, ok bool) {
 	return "other", "", false, true
 }
 
-func absBig(v int64) *big.Int { return new(big.Int).Abs(big.NewInt(v)) }
-
 func mulBig(a *big.Int, k int64) *big.Int { return new(big.Int).Mul(a, big.NewInt(k)) }
 
-const ruleText = "fixed near-miss table, boundary values (0, ±1, ±10^k, 10^k±1, 2^52, 2^53, ±(2^63-1), ±2^63) written with 0..20 decimals, grammar members with 1..40 digit runs, one and two single-character mutations (insert/delete/replace with + - . e E % space , _ non-ASCII digits NUL quote newline), random byte strings incl. invalid UTF-8, JSON tokens (bare numbers, quoted, one or all characters escaped in either hex case or as two-character escapes, surrogate pairs, padded, null/true/objects, the strings \"null\" and \"\", malformed quoted tokens with bad escapes / raw control bytes / invalid UTF-8 / trailing text) through encoding/json and directly through UnmarshalJSON/UnmarshalText; written texts for boundary and random int64 values at exponents 0..18 (percentages 0..20); non-trivial = pattern member or accepted input or a written text; distinct by operation and input"
+const ruleText = "fixed near-miss table, boundary values (0, ±1, ±10^k, 10^k±1, 2^52, 2^53, ±(2^63-1), ±2^63, ±(2^63+1)) written with 0..20 decimals, grammar members with 1..40 digit runs, one and two single-character mutations (insert/delete/replace with + - . e E % space , _ non-ASCII digits NUL quote newline), random byte strings incl. invalid UTF-8, JSON tokens (bare numbers, quoted, one or all characters escaped in either hex case or as two-character escapes, surrogate pairs, padded, null/true/objects, the strings \"null\" and \"\", malformed quoted tokens with bad escapes / raw control bytes / invalid UTF-8 / trailing text) through encoding/json and directly through UnmarshalJSON/UnmarshalText; written texts for boundary and random int64 values at exponents 0..18 (percentages 0..20); non-trivial = pattern member or accepted input or a written text; distinct by operation and input"
 
 func runCases(c *core.Ctx, cases []tcase) int {
 	o, err := newOracle(c.Repo)
@@ -927,22 +934,6 @@ func pctClassRead(o *oracle, text string) string {
 	return ""
 }
 
-// scaled magnitude class of a fitting amount text used as a percentage
-func pctMagnitudeClass(body string) string {
-	_, u, _ := readDecimal(body)
-	if u == nil {
-		return ""
-	}
-	s := mulBig(u, 100)
-	if s.Cmp(maxI64) > 0 {
-		return "percentage-scaling-overflow"
-	}
-	if s.Cmp(two52) >= 0 {
-		return "percentage-beyond-exact-range"
-	}
-	return ""
-}
-
 func judgePctRead(c *core.Ctx, o *oracle, t tcase, text string, g goRes, mr mresp, unmarshal bool) {
 	if unmarshal {
 		c.Eval(t.Op+" "+t.Hex, g.ok)
@@ -998,8 +989,8 @@ func judgePctText(c *core.Ctx, o *oracle, t tcase, text string, g goRes, mr mres
 	case g.ok:
 		exp := new(big.Rat).Quo(textRat(body), big.NewRat(100, 1))
 		if ratOf(g.v, g.e).Cmp(exp) != 0 {
+			// no magnitude excuse: the conversion only moves the decimal point
 			verdict = false
-			class = pctMagnitudeClass(body)
 			what = fmt.Sprintf("%s read %q as %d:%d, a different number", fn, text, g.v, g.e)
 		}
 	}
@@ -1130,11 +1121,8 @@ func judgeAmountWrite(c *core.Ctx, o *oracle, t tcase, g goRes, mr mresp) {
 		return
 	}
 	if !verdict {
-		class := ""
-		if t.V == math.MinInt64 {
-			class = "amount-min-int64"
-		}
-		c.Fail(class, what, t)
+		// every int64 value, the minimum included, is written as its decimal text and read back
+		c.Fail("", what, t)
 	}
 	if mr.m != core.Hex(g.text) {
 		c.TieBroken("drive:C06/"+t.Op, fmt.Sprintf("model text %s vs Go %q for %d:%d", mr.m, g.text, t.V, t.E), t)
@@ -1143,7 +1131,13 @@ func judgeAmountWrite(c *core.Ctx, o *oracle, t tcase, g goRes, mr mresp) {
 
 func judgePctWrite(c *core.Ctx, o *oracle, t tcase, g goRes, mr mresp) {
 	c.Eval(fmt.Sprintf("pstr %d %d", t.V, t.E), true)
-	inDom := mulBig(absBig(t.V), 10000).Cmp(two52) < 0 && t.E <= 20
+	// domain of an exact text: the percent figure value*10^(2-exp) is an int64 (for two
+	// or more decimals that is the value itself); Percentage.Amount rescales up unchecked
+	fig := big.NewInt(t.V)
+	if t.E < 2 {
+		fig = mulBig(fig, []int64{100, 10}[t.E])
+	}
+	inDom := fig.Cmp(minI64) >= 0 && fig.Cmp(maxI64) <= 0 && t.E <= 20
 	if inDom != mr.dom {
 		c.TieBroken("drive:C06/pctWriteDom", fmt.Sprintf("domain predicate differs on %d:%d", t.V, t.E), t)
 		return
@@ -1172,7 +1166,7 @@ func judgePctWrite(c *core.Ctx, o *oracle, t tcase, g goRes, mr mresp) {
 	if !verdict {
 		class := ""
 		if !inDom {
-			class = "percentage-beyond-exact-range"
+			class = "percentage-figure-beyond-int64"
 		}
 		c.Fail(class, what, t)
 	}
